@@ -71,6 +71,7 @@ type env struct {
 	specs    []*mechSpec
 	byID     map[string]*mechSpec
 	ref      map[string]string // mech|override|input -> behaviour (override "" = prototype)
+	fresh    map[string]string // mech|override|input -> behaviour of a fresh prototype built from the overlaid configuration
 	j        *journal
 	reported map[string]bool // per-child de-duplication of identical violations
 }
@@ -207,7 +208,11 @@ func (e *env) buildRefs() error {
 				if f != nil {
 					fb := f.run(in)
 					counts["variant_vs_fresh_overlay_comparisons"]++
-					if fs := fb.String(); fs != bs && !isTransportFlake(fb) {
+					fs := fb.String()
+					if !isTransportFlake(fb) {
+						e.fresh[refKey(s, ov.Name, in.Name)] = fs
+					}
+					if fs != bs && !isTransportFlake(fb) {
 						e.report("eq|"+s.ID+"|"+ov.Name, sanitizeSig("variant-differs-from-fresh-overlay:"+s.Label+":"+ov.Name),
 							fmt.Sprintf("%s %q: variant created with override %q behaves differently from a fresh prototype built from the overlaid configuration (input %s)", s.Kind, s.ID, ov.Name, in.Name),
 							map[string]any{"mechanism": s.ID, "type": s.Type, "prototype_config": s.Cfg, "override": ov.Cfg, "overlaid_config": overlay(s.Cfg, ov.Cfg),
@@ -574,12 +579,15 @@ func c17Child() {
 	if err != nil {
 		fail(err)
 	}
-	e := &env{seed: seed, g: g, srv: srv, j: j, ref: map[string]string{}, byID: map[string]*mechSpec{}, reported: map[string]bool{}}
+	e := &env{seed: seed, g: g, srv: srv, j: j, ref: map[string]string{}, fresh: map[string]string{}, byID: map[string]*mechSpec{}, reported: map[string]bool{}}
 	e.specs = catalogue(srv, ks, time.Now())
 	for _, s := range e.specs {
 		e.byID[s.ID] = s
 	}
 	if err := e.buildRefs(); err != nil {
+		fail(err)
+	}
+	if err := e.closePairs(first); err != nil {
 		fail(err)
 	}
 	for r := first; r < first+count; r++ {
@@ -644,6 +652,10 @@ func TestC17(t *testing.T) {
 		"every overridable map or list valued option (values, forward_headers, forward_cookies, expressions, forward_response_headers_to_upstream, assertions.issuers / audience / scopes / allowed_algorithms, " +
 		"scopes, headers, cookies) is overridden with collections smaller than, as big as and bigger than the one of the catalogue entry, sharing none, some or all of its entries (catalogue entries with " +
 		"two or three entries per collection which render the whole collection into the upstream request), and with the empty collection; scalar options also with the empty string; " +
+		"families of different but textually close overrides of one catalogue entry (scopes, values, headers, forwarded headers / cookies, claims, realm: same concatenation of keys and values with the boundary between two list " +
+		"elements or between key and value moved, two entries against one holding the text of both, the same leaves under exchanged keys / another option / in another order, entries joined by a separator, " +
+		"values equal after upper-casing or trimming) for one mechanism of every kind are in addition all created from one factory in a seeded order and from a second factory in the reversed order, " +
+		"every override requested twice, and every object handed out is compared with the fresh overlay of the override it was requested for; " +
 		"even rounds are cold (the first execution of every object happens when 16 goroutines are released by a barrier, each starting with a different object of the mechanism), " +
 		"odd rounds execute prototypes and earlier variants sequentially between creations. Monitors: race detector (child process), reflective deep fingerprint of every prototype " +
 		"and variant (after each creation, after sequential and after concurrent executions), behaviour (result of Execute incl. subject, upstream headers/cookies, outputs, pipeline " +
@@ -729,7 +741,7 @@ func TestC17(t *testing.T) {
 						samples++
 						r.Sample(ev.Sample)
 					}
-				case "done":
+				case "pairs", "done":
 					for k, v := range ev.Counts {
 						r.Count(k, v)
 					}
@@ -787,6 +799,9 @@ func TestC17(t *testing.T) {
 	r.Require("concurrent_executions", r.Counter("concurrent_executions"), int64(rounds*1000))
 	r.Require("executions_with_cache_ttl_bounded_by_upstream_lifetime", r.Counter("executions_with_cache_ttl_bounded_by_upstream_lifetime"), int64(rounds*30))
 	r.Require("executions_with_configured_cache_ttl_below_upstream_lifetime", r.Counter("executions_with_configured_cache_ttl_below_upstream_lifetime"), int64(rounds*30))
+	r.Require("close_override_pairs_created_in_both_orders", r.Counter("close_override_pairs_created_in_both_orders"), 100)
+	r.Require("close_override_variant_vs_fresh_overlay_comparisons", r.Counter("close_override_variant_vs_fresh_overlay_comparisons"), 400)
+	r.Require("close_override_repeated_requests", r.Counter("close_override_repeated_requests"), 50)
 	r.Require("fingerprint_comparisons", r.Counter("fingerprint_comparisons"), int64(rounds*500))
 	for _, c := range []string{"smaller", "equal", "larger", "empty"} {
 		r.Require("variant_creations_with_"+c+"_collection", r.Counter("variant_creations_with_"+c+"_collection"), int64(rounds*5))
